@@ -29,3 +29,36 @@ func sendQueueLen(c *net.TCPConn) (int, error) {
 func setRcvbuf(fd uintptr, n int) {
 	syscall.SetsockoptInt(int(fd), syscall.SOL_SOCKET, syscall.SO_RCVBUF, n)
 }
+
+// ReserveDeadPort binds a tcp socket on a loopback port of the private range WITHOUT listening on
+// it: a dial to the address is refused, and nobody else can get the port until release is called.
+func ReserveDeadPort() (addr string, release func(), err error) {
+	for i := 0; i < 200; i++ {
+		portMu.Lock()
+		port := 20000 + portRand.Intn(12000)
+		portMu.Unlock()
+		fd, e := syscall.Socket(syscall.AF_INET, syscall.SOCK_STREAM, 0)
+		if e != nil {
+			return "", nil, e
+		}
+		sa := &syscall.SockaddrInet4{Port: port, Addr: [4]byte{127, 0, 0, 1}}
+		if e = syscall.Bind(fd, sa); e != nil {
+			syscall.Close(fd)
+			err = e
+			continue
+		}
+		return "127.0.0.1:" + itoa(port), func() { syscall.Close(fd) }, nil
+	}
+	return "", nil, err
+}
+
+func itoa(n int) string {
+	if n == 0 {
+		return "0"
+	}
+	var b []byte
+	for ; n > 0; n /= 10 {
+		b = append([]byte{byte('0' + n%10)}, b...)
+	}
+	return string(b)
+}
